@@ -1255,4 +1255,4 @@ def _programs(draw):
 
 
 def subs(tier):
-    return [Generated("program", check_program, strategy=_programs(), quick=1600, thorough=60000, budget_s_quick=30.0)]
+    return [Generated("program", check_program, strategy=_programs(), quick=3200, thorough=40000, budget_s_quick=30.0)]
